@@ -190,6 +190,15 @@ fn linear_variants(terms: &[(u64, f64)], c: f64) -> Vec<Option<FnRep>> {
             terms: terms.iter().map(|(i, x)| (vec![*i], *x)).chain(if c != 0.0 { Some((vec![], c)) } else { None }).collect(),
         }),
     ];
+    if let Some((id, co)) = terms.first() {
+        // wire-legal unnormalised representations: the first term listed twice (2c and -c), unsorted
+        let mut split: Vec<(u64, f64)> = vec![(*id, 2.0 * co)];
+        split.extend(terms.iter().skip(1).rev().cloned());
+        split.push((*id, -co));
+        v.push(Some(FnRep::Lin { terms: split.clone(), c }));
+        v.push(Some(FnRep::Quad { entries: vec![], lin: Some((split.clone(), c)) }));
+        v.push(Some(FnRep::Poly { terms: split.iter().map(|(i, x)| (vec![*i], *x)).chain([(vec![], c + 1.0), (vec![], -1.0)]).collect() }));
+    }
     if terms.is_empty() {
         v.push(Some(FnRep::Const(c)));
         if c == 0.0 {
